@@ -5,6 +5,7 @@ go 1.23
 require (
 	github.com/gdamore/tcell/v2 v2.0.0
 	github.com/mattn/go-runewidth v0.0.16
+	golang.org/x/text v0.21.0
 	pgregory.net/rapid v1.3.0
 )
 
@@ -14,7 +15,6 @@ require (
 	github.com/rivo/uniseg v0.4.3 // indirect
 	golang.org/x/sys v0.29.0 // indirect
 	golang.org/x/term v0.28.0 // indirect
-	golang.org/x/text v0.21.0 // indirect
 )
 
 replace github.com/gdamore/tcell/v2 => /repo
